@@ -26,6 +26,8 @@ impl<'a> TokenBasedLuaGenerator<'a> {
     }
 
     fn push_str(&mut self, string: &str) {
+        #[cfg(darklua_verif)]
+        crate::verif_hooks::trace("push_str", string, self.current_line as i64);
         self.current_line += utils::count_new_lines(string.as_bytes());
         self.output.push_str(string);
     }
@@ -34,6 +36,8 @@ impl<'a> TokenBasedLuaGenerator<'a> {
         let content = trivia.read(self.original_code);
 
         let is_comment = matches!(trivia.kind(), TriviaKind::Comment);
+        #[cfg(darklua_verif)]
+        crate::verif_hooks::trace("trivia", content, if is_comment { 0 } else { 1 });
         let is_line_comment = is_comment && is_single_line_comment(content);
         let is_multiline_comment = is_comment && !is_line_comment;
 
@@ -63,11 +67,23 @@ impl<'a> TokenBasedLuaGenerator<'a> {
     }
 
     fn write_token_options(&mut self, token: &Token, space_check: bool) {
+        #[cfg(darklua_verif)]
+        crate::verif_hooks::trace("token_begin", "", space_check as i64);
         for trivia in token.iter_leading_trivia() {
             self.write_trivia(trivia);
         }
 
         let content = token.read(self.original_code);
+
+        #[cfg(darklua_verif)]
+        crate::verif_hooks::trace(
+            "token_content",
+            content,
+            token
+                .get_line_number()
+                .map(|line| line as i64)
+                .unwrap_or(-1),
+        );
 
         if !content.is_empty() {
             if self.currently_commenting {
@@ -76,6 +92,8 @@ impl<'a> TokenBasedLuaGenerator<'a> {
 
             if let Some(line_number) = token.get_line_number() {
                 while line_number > self.current_line {
+                    #[cfg(darklua_verif)]
+                    crate::verif_hooks::trace("pad", "", line_number as i64);
                     self.output.push('\n');
                     self.current_line += 1;
                 }
@@ -84,6 +102,8 @@ impl<'a> TokenBasedLuaGenerator<'a> {
             if space_check {
                 if let Some(next_character) = content.chars().next() {
                     if self.needs_space(next_character) {
+                        #[cfg(darklua_verif)]
+                        crate::verif_hooks::trace("space", "", 0);
                         self.output.push(' ');
                     }
                 }
@@ -92,9 +112,13 @@ impl<'a> TokenBasedLuaGenerator<'a> {
             self.push_str(content);
         }
 
+        #[cfg(darklua_verif)]
+        crate::verif_hooks::trace("token_trailing", "", 0);
         for trivia in token.iter_trailing_trivia() {
             self.write_trivia(trivia);
         }
+        #[cfg(darklua_verif)]
+        crate::verif_hooks::trace("token_end", "", 0);
     }
 
     fn write_block_with_tokens(&mut self, block: &Block, tokens: &BlockTokens) {
@@ -1394,6 +1418,8 @@ impl<'a> TokenBasedLuaGenerator<'a> {
                     })
                     .is_none()
                 {
+                    #[cfg(darklua_verif)]
+                    crate::verif_hooks::trace("raw_space", "", 0);
                     self.output.push(' ');
                 }
             }
@@ -1938,15 +1964,21 @@ impl<'a> TokenBasedLuaGenerator<'a> {
     }
 
     fn write_symbol(&mut self, symbol: &str) {
+        #[cfg(darklua_verif)]
+        crate::verif_hooks::trace("symbol", symbol, 1);
         if self.currently_commenting {
             self.uncomment();
         } else if self.needs_space(symbol.chars().next().expect("symbol cannot be empty")) {
+            #[cfg(darklua_verif)]
+            crate::verif_hooks::trace("space", "", 1);
             self.output.push(' ');
         }
         self.push_str(symbol);
     }
 
     fn write_symbol_without_space_check(&mut self, symbol: &str) {
+        #[cfg(darklua_verif)]
+        crate::verif_hooks::trace("symbol", symbol, 0);
         if self.currently_commenting {
             self.uncomment();
         }
@@ -1990,6 +2022,8 @@ impl<'a> TokenBasedLuaGenerator<'a> {
 
     #[inline]
     fn uncomment(&mut self) {
+        #[cfg(darklua_verif)]
+        crate::verif_hooks::trace("uncomment", "", self.current_line as i64);
         self.output.push('\n');
         self.current_line += 1;
         self.currently_commenting = false;
@@ -2020,6 +2054,12 @@ fn comma_token() -> Token {
 
 impl LuaGenerator for TokenBasedLuaGenerator<'_> {
     fn into_string(self) -> String {
+        #[cfg(darklua_verif)]
+        crate::verif_hooks::trace(
+            "into_string",
+            if self.currently_commenting { "1" } else { "0" },
+            self.current_line as i64,
+        );
         self.output
     }
 
